@@ -13,7 +13,8 @@ RULE = ("every path produced by LogicalSegment / request_path / tag_request_path
         "+ 32-bit boundaries and random; request_path with int and 1/2/4-byte bytes arguments; tag strings from the documented "
         "grammar (names 1..40 chars, 0-3 indices per level over 8/16/32-bit values, nested members, program scope, symbol "
         "instance ids of 8/16/32 bits); port routes by alias/number x slots 0..255 x IPv4 strings of every length; the same segment "
-        "objects encoded again after the caller changed them and under packed-then-padded encoding; end to end: routed generic messages and Logix "
+        "objects encoded again after the caller changed them and under packed-then-padded encoding; symbol names with characters outside ASCII "
+        "(structure only: length byte = byte count of the name as sent, pad to even); end to end: routed generic messages and Logix "
         "reads against the reference target on every controller configuration (a Micro800 answers to the empty route only, a failed open() "
         "is a violation); "
         "distinct = (constructor, logical type | name-length parity | port, value-width class) evaluated")
